@@ -395,7 +395,7 @@ class Interp:
             if (r.get("bk") == "mut" or k == "rawptr") and not any("deref" in e for e in p.get("p", [])):
                 # `&mut local`: a callee (or a write through the reference) may change the local behind our back
                 st["borrowed"] = st.get("borrowed", frozenset()) | {p["l"]}
-            if isinstance(v, tuple) and v[0] in ('fieldref', 'self', 'slice', 'array', 'nvit', 'some', 'none', 'enum', 'ok', 'tuple'):
+            if isinstance(v, tuple) and v[0] in ('fieldref', 'self', 'slice', 'array', 'nvit', 'some', 'none', 'enum', 'ok', 'tuple', 'range', 'pair', 'bool'):
                 return v
             if isinstance(v, Lin):
                 return v            # &usize: read-only views of integers are modelled by value
@@ -577,15 +577,33 @@ class Interp:
             if 0 in cs:
                 hs.add(0)
             assigned = set()
+            fields = set()          # fields of `self` written, mutably borrowed, or possibly changed by a callee holding self
+            whole = False
             for b in comp:
                 for s_ in body.blocks[b]["st"]:
                     if s_["k"] == "assign":
                         assigned.add(s_["place"]["l"])
+                        pl = s_["place"]
+                        if pl["l"] == 1 and pl.get("p"):
+                            fl = [e for e in pl["p"] if "f" in e]
+                            if fl:
+                                fields.add(fl[0].get("n", fl[0]["f"]))
+                        rv = s_["rv"]
+                        if rv["k"] in ("ref", "rawptr") and rv.get("bk") == "mut" and rv["place"]["l"] == 1:
+                            fl = [e for e in rv["place"].get("p", []) if "f" in e]
+                            if fl:
+                                fields.add(fl[0].get("n", fl[0]["f"]))
+                            else:
+                                whole = True
                 t = body.blocks[b]["t"]
                 if t["k"] == "call" and "dest" in t:
                     assigned.add(t["dest"]["l"])
+                    for a in t["args"]:
+                        pl = a.get("move") or a.get("copy")
+                        if pl is not None and pl["l"] == 1 and not [e for e in pl.get("p", []) if "f" in e]:
+                            whole = True        # self itself handed to a callee inside the loop
             for h in hs:
-                heads[h] = assigned
+                heads[h] = (assigned, None if whole else fields)
         self._loops[k] = heads
         return heads
 
@@ -651,11 +669,17 @@ class Interp:
                     return          # back edge: the invariant was re-established (or reported); the head was explored from a generic state
                 self.stats["loop_heads"] += 1
                 # havoc: everything the loop may change is forgotten; the invariant is all that is known
-                syms = ["%s@%d" % (f, next(self.fresh)) for f in self.cursors]
-                self.chain(st["ctx"], syms)
-                st["heap"] = {f: Lin.sym(s) for f, s in zip(self.cursors, syms)}
+                assigned, loop_fields = heads[bb]
+                if self.cursors or loop_fields is None:
+                    syms = ["%s@%d" % (f, next(self.fresh)) for f in self.cursors]
+                    self.chain(st["ctx"], syms)
+                    st["heap"] = {f: Lin.sym(s) for f, s in zip(self.cursors, syms)}
+                else:
+                    # only what the loop can change is forgotten
+                    for fl in loop_fields:
+                        st["heap"].pop(fl, None)
                 st["regions"] = {}
-                for l in heads[bb]:
+                for l in assigned:
                     if st["env"].get(l) != ('self',):
                         st["env"].pop(l, None)
                 if st["stack"]:
@@ -874,6 +898,10 @@ class Interp:
         if short in ("from", "into") and len(args) == 1 and isinstance(args[0], Lin) and (name.startswith("std::convert::num::") or "Into" in name or "From" in name) and dty in UINT:
             # lossless integer conversion (From is only implemented for widenings)
             self.store(st, t["dest"], args[0])
+            return None
+        if (name.endswith("Clone>::clone") or name.endswith("clone::Clone::clone")) and len(args) == 1 and (
+                isinstance(args[0], Lin) or (isinstance(args[0], tuple) and args[0][0] in ('range', 'tuple', 'some', 'none', 'pair', 'bool'))):
+            self.store(st, t["dest"], args[0])      # a clone of a plain value (e.g. a Range<usize>) is that value
             return None
         if name.endswith("std::ops::Try>::branch") and len(args) == 1 and isinstance(args[0], tuple) and args[0][0] in ('some', 'none', 'ok'):
             a0 = args[0]
